@@ -3062,6 +3062,8 @@ class sptensor:
             keep = cvals[:, 0] != 0
             return ttb.sptensor(csubs[keep], cvals[keep], self.shape)
         if isinstance(other, ttb.ktensor):
+            if self.nnz == 0:
+                return self.copy()
             csubs = self.subs
             cvals = np.zeros(self.vals.shape)
             R = other.weights.size
@@ -3074,7 +3076,8 @@ class sptensor:
                     v = other.factor_matrices[n][:, r][:, None]
                     tvals = tvals * v[csubs[:, n]]
                 cvals += tvals
-            return ttb.sptensor(csubs, cvals, self.shape)
+            keep = cvals[:, 0] != 0
+            return ttb.sptensor(csubs[keep], cvals[keep], self.shape)
         assert False, "Sptensor cannot be multiplied by that type of object"
 
     def __rmul__(self, other):
@@ -3444,6 +3447,8 @@ class sptensor:
             cvals = self.vals / np.reshape(other[csubs], (-1, 1))
             return ttb.sptensor(csubs, cvals, self.shape)
         if isinstance(other, ttb.ktensor):
+            if self.nnz == 0:
+                return self.copy()
             # TODO consider removing epsilon and generating nans consistent with above
             epsilon = np.finfo(float).eps
             subs = self.subs
